@@ -15,19 +15,14 @@ theorem is for **every configuration** `cfg` of the class (`Ex.Cfg`: any agent m
 table, attack mapping, set of state / observer / done components in any iteration order), every
 number of agents, every tape and every history.
 
-* **C01 / C07** `C01_examples`, `C07_examples`, `C07_examples_every_call_returns` — the four classes
-  whose `get_reward` is the smart simulation's (`cfg.which ≠ .multiMaze`) satisfy `Lawful` / `WF`
-  (`Ex.ex_lawful`, `Ex.ex_WF`), hence for every manager that can drive them (all-step, turn-based),
-  every initial manager state and every history of resets and steps the manager's trace satisfies
-  `specC01` and `specC07`.  Named instances: `C01_TeamBattle`, `C01_PredatorPrey`,
-  `C01_MazeNavigation`, `C01_TrafficCorridor` (and `C07_…`).
-  `MultiMazeNavigationSim` is **not** lawful (`multiMaze_not_lawful`: its `get_reward` returns `1`
-  whenever the agent stands on the target and every time it is asked; finding C01-E1).  Proved for
-  it (`C01_MultiMaze_partial`, `C07_MultiMaze_partial`): the statements for the interface whose
-  reward *values* are erased (`Ex.eraseRewards`: every clause of `specC01` except the ledger clause,
-  all of `specC07`).  Missing for the full statement
-  `specC01 k n cfg.isLearning sh (runOps (Ex.toSimIface cfg n) k m0 ops) = true` with
-  `cfg.which = .multiMaze`: it is false (the ledger clause fails on the unchanged class).
+* **C01 / C07** `C01_examples`, `C07_examples`, `C07_examples_every_call_returns` — all five classes
+  satisfy `Lawful` / `WF` (`Ex.ex_lawful`, `Ex.ex_WF`), hence for every manager that can drive them
+  (all-step, turn-based), every initial manager state and every history of resets and steps the
+  manager's trace satisfies `specC01` and `specC07`.  Named instances: `C01_TeamBattle`,
+  `C01_PredatorPrey`, `C01_MazeNavigation`, `C01_MultiMaze`, `C01_TrafficCorridor` (and `C07_…`).
+  (`MultiMazeNavigationSim` was not lawful before the repair fce2c1d — its `get_reward` returned `1`
+  on every call while the agent stood on the target, finding C01-E1, which this instantiation
+  surfaced: the proof of `rew_pending` failed for it.)
 * **C03** `examples_step_is_history` — the world and the remaining tape after `step` are those of
   `runGOpsSeq` over the explicit list `Ex.stepOps cfg acts` of component calls; `examples_reachable_WInv`
   — every state reached by any history of resets, steps and getter calls from the constructed world
@@ -38,9 +33,12 @@ number of agents, every tape and every history.
   (alive or dead) and the observation is a dict with exactly the keys of the observers that support the
   agent, each value inside the space that observer declared; `examples_step_noRaise` — a `step` whose
   action dict holds points of the declared action spaces of learning agents (`Ex.StepOK`) does not
-  raise (so the totalisation of `Ex.toSimIface` is never used there; the two ways in which the unchanged
-  `TeamBattleSim` / `PredatorPreyResourcesSim` do raise for in-space actions, findings C02-E2 / C02-E3,
-  are excluded by `Ex.StepOK`); `examples_get_reward_total`.
+  raise (so the totalisation of `Ex.toSimIface` is never used there).  What `Ex.StepOK` assumes beyond
+  "points of the declared spaces, for learning agents of the simulation": `MazeNavigationSim` — the
+  dict has an item for the navigator; `TrafficCorridorSimulation` — the done components answer for the
+  acting agents; nothing for the other three (the two ways in which `TeamBattleSim` /
+  `PredatorPreyResourcesSim` raised for in-space actions, findings C02-E2 / C02-E3, were repaired:
+  afc90bd, c275832); `examples_get_reward_total`.
 * **the judge** `examples_hist` — under `Ex.exPre` the model's own trace satisfies `Ex.specEx`, the
   Boolean the driver evaluates on the implementation's trace (op `gexample`).
 * **C08** `examples_reset_forgets`, `examples_fresh_twin` — `reset` maps two objects of the same
@@ -58,155 +56,67 @@ open World
 
 /-! ## C01, C07 -/
 
-/-- **C01 for the packaged examples** (every class but `MultiMazeNavigationSim`): for every
+/-- **C01 for the packaged examples** (all five modelled classes): for every
 configuration of the example, every manager that can drive it, every initial manager state and every
 history of resets and steps, the manager's trace satisfies `specC01`. -/
-theorem C01_examples (cfg : Ex.Cfg) (n : Nat) (k : MKind) (hw : cfg.which ≠ .multiMaze) (hk : k ≠ .dynamic)
+theorem C01_examples (cfg : Ex.Cfg) (n : Nat) (k : MKind) (hk : k ≠ .dynamic)
     (hl : k = .turnBased → ∃ a < n, cfg.isLearning a = true) (m0 : MState Ex.St) (ops : List (Op Ex.Act)) :
     specC01 k n cfg.isLearning m0.shuffle (runOps (Ex.toSimIface cfg n) k m0 ops) = true :=
-  C01_managers_honour_done_protocol (Ex.toSimIface cfg n) k (Ex.ex_WF cfg n k hw hk hl) m0 ops
+  C01_managers_honour_done_protocol (Ex.toSimIface cfg n) k (Ex.ex_WF cfg n k hk hl) m0 ops
 
 /-- **C07 for the packaged examples** -/
-theorem C07_examples (cfg : Ex.Cfg) (n : Nat) (k : MKind) (hw : cfg.which ≠ .multiMaze) (hk : k ≠ .dynamic)
+theorem C07_examples (cfg : Ex.Cfg) (n : Nat) (k : MKind) (hk : k ≠ .dynamic)
     (hl : k = .turnBased → ∃ a < n, cfg.isLearning a = true) (m0 : MState Ex.St) (ops : List (Op Ex.Act)) :
     specC07 k n cfg.isLearning (runOps (Ex.toSimIface cfg n) k m0 ops) = true :=
-  C07_fair_turns_and_progress (Ex.toSimIface cfg n) k (Ex.ex_WF cfg n k hw hk hl) m0 ops
+  C07_fair_turns_and_progress (Ex.toSimIface cfg n) k (Ex.ex_WF cfg n k hk hl) m0 ops
 
 /-- every manager call over a packaged example made under the caller protocol returns normally or
 with the documented rejection -/
-theorem C07_examples_every_call_returns (cfg : Ex.Cfg) (n : Nat) (k : MKind) (hw : cfg.which ≠ .multiMaze)
+theorem C07_examples_every_call_returns (cfg : Ex.Cfg) (n : Nat) (k : MKind)
     (hk : k ≠ .dynamic) (hl : k = .turnBased → ∃ a < n, cfg.isLearning a = true) (m0 : MState Ex.St)
     (ops : List (Op Ex.Act)) (i : Nat) (e : Entry Ex.Act Ex.ObsOut Unit)
     (hi : (runOps (Ex.toSimIface cfg n) k m0 ops)[i]? = some e)
     (hp : ProtocolOK {} (runOps (Ex.toSimIface cfg n) k m0 ops) i) :
     ∀ er, e.res = .err er → er = .rejected :=
-  C07_every_call_returns (Ex.toSimIface cfg n) k (Ex.ex_WF cfg n k hw hk hl) m0 ops i e hi hp
+  C07_every_call_returns (Ex.toSimIface cfg n) k (Ex.ex_WF cfg n k hk hl) m0 ops i e hi hp
 
 section named
 variable (cfg : Ex.Cfg) (n : Nat) (k : MKind) (hk : k ≠ .dynamic)
   (hl : k = .turnBased → ∃ a < n, cfg.isLearning a = true) (m0 : MState Ex.St) (ops : List (Op Ex.Act))
 include hk hl
 
-theorem C01_TeamBattle (hc : cfg.which = .teamBattle) :
+theorem C01_TeamBattle (_hc : cfg.which = .teamBattle) :
     specC01 k n cfg.isLearning m0.shuffle (runOps (Ex.toSimIface cfg n) k m0 ops) = true :=
-  C01_examples cfg n k (by rw [hc]; decide) hk hl m0 ops
-theorem C01_PredatorPrey (hc : cfg.which = .predatorPrey) :
+  C01_examples cfg n k hk hl m0 ops
+theorem C01_PredatorPrey (_hc : cfg.which = .predatorPrey) :
     specC01 k n cfg.isLearning m0.shuffle (runOps (Ex.toSimIface cfg n) k m0 ops) = true :=
-  C01_examples cfg n k (by rw [hc]; decide) hk hl m0 ops
-theorem C01_MazeNavigation (hc : cfg.which = .mazeNav) :
+  C01_examples cfg n k hk hl m0 ops
+theorem C01_MazeNavigation (_hc : cfg.which = .mazeNav) :
     specC01 k n cfg.isLearning m0.shuffle (runOps (Ex.toSimIface cfg n) k m0 ops) = true :=
-  C01_examples cfg n k (by rw [hc]; decide) hk hl m0 ops
-theorem C01_TrafficCorridor (hc : cfg.which = .traffic) :
+  C01_examples cfg n k hk hl m0 ops
+theorem C01_MultiMaze (_hc : cfg.which = .multiMaze) :
     specC01 k n cfg.isLearning m0.shuffle (runOps (Ex.toSimIface cfg n) k m0 ops) = true :=
-  C01_examples cfg n k (by rw [hc]; decide) hk hl m0 ops
-theorem C07_TeamBattle (hc : cfg.which = .teamBattle) :
+  C01_examples cfg n k hk hl m0 ops
+theorem C01_TrafficCorridor (_hc : cfg.which = .traffic) :
+    specC01 k n cfg.isLearning m0.shuffle (runOps (Ex.toSimIface cfg n) k m0 ops) = true :=
+  C01_examples cfg n k hk hl m0 ops
+theorem C07_TeamBattle (_hc : cfg.which = .teamBattle) :
     specC07 k n cfg.isLearning (runOps (Ex.toSimIface cfg n) k m0 ops) = true :=
-  C07_examples cfg n k (by rw [hc]; decide) hk hl m0 ops
-theorem C07_PredatorPrey (hc : cfg.which = .predatorPrey) :
+  C07_examples cfg n k hk hl m0 ops
+theorem C07_PredatorPrey (_hc : cfg.which = .predatorPrey) :
     specC07 k n cfg.isLearning (runOps (Ex.toSimIface cfg n) k m0 ops) = true :=
-  C07_examples cfg n k (by rw [hc]; decide) hk hl m0 ops
-theorem C07_MazeNavigation (hc : cfg.which = .mazeNav) :
+  C07_examples cfg n k hk hl m0 ops
+theorem C07_MazeNavigation (_hc : cfg.which = .mazeNav) :
     specC07 k n cfg.isLearning (runOps (Ex.toSimIface cfg n) k m0 ops) = true :=
-  C07_examples cfg n k (by rw [hc]; decide) hk hl m0 ops
-theorem C07_TrafficCorridor (hc : cfg.which = .traffic) :
+  C07_examples cfg n k hk hl m0 ops
+theorem C07_MultiMaze (_hc : cfg.which = .multiMaze) :
     specC07 k n cfg.isLearning (runOps (Ex.toSimIface cfg n) k m0 ops) = true :=
-  C07_examples cfg n k (by rw [hc]; decide) hk hl m0 ops
+  C07_examples cfg n k hk hl m0 ops
+theorem C07_TrafficCorridor (_hc : cfg.which = .traffic) :
+    specC07 k n cfg.isLearning (runOps (Ex.toSimIface cfg n) k m0 ops) = true :=
+  C07_examples cfg n k hk hl m0 ops
 
 end named
-
-/-! ### `MultiMazeNavigationSim` -/
-
-namespace Ex
-variable {σ α ω ι : Type}
-
-/-- the same simulation seen through an interface that does not show reward *values*: `get_reward`
-still runs (and changes the state as it does), its result and the ghost `pending` read 0 -/
-def eraseRewards (S : SimIface σ α ω ι) : SimIface σ α ω ι :=
-  { S with reward := fun s a => (0, (S.reward s a).2), pending := fun _ _ => 0 }
-
-/-- every class, `MultiMazeNavigationSim` included, is lawful once the reward values are erased -/
-theorem ex_lawful_erased (cfg : Cfg) (n : Nat) : Lawful (eraseRewards (toSimIface cfg n)) where
-  obs_done := by
-    intro s a b
-    simp only [eraseRewards, toSimIface]
-    cases h : getObs cfg s a with
-    | error e => rfl
-    | ok r => obtain ⟨o, s'⟩ := r; obtain ⟨t', rfl⟩ := getObs_shape h; rfl
-  obs_allDone := by
-    intro s a
-    simp only [eraseRewards, toSimIface]
-    cases h : getObs cfg s a with
-    | error e => rfl
-    | ok r => obtain ⟨o, s'⟩ := r; obtain ⟨t', rfl⟩ := getObs_shape h; rfl
-  obs_next := by intros; rfl
-  obs_pending := by intros; rfl
-  rew_done := by
-    intro s a b
-    simp only [eraseRewards, toSimIface]
-    cases h : getReward cfg s a with
-    | error e => rfl
-    | ok r =>
-      obtain ⟨x, s'⟩ := r
-      obtain ⟨r0, hr0, _, rfl⟩ := getReward_shape h
-      simp only [getDone, hr0]
-  rew_allDone := by
-    intro s a
-    simp only [eraseRewards, toSimIface]
-    cases h : getReward cfg s a with
-    | error e => rfl
-    | ok r =>
-      obtain ⟨x, s'⟩ := r
-      obtain ⟨r0, hr0, _, rfl⟩ := getReward_shape h
-      simp only [getAllDone, hr0]
-  rew_next := by intros; rfl
-  rew_val := by intros; rfl
-  rew_pending := by intro s a b; simp [eraseRewards]
-
-theorem ex_WF_erased (cfg : Cfg) (n : Nat) (k : MKind) (hk : k ≠ .dynamic)
-    (hl : k = .turnBased → ∃ a < n, cfg.isLearning a = true) : WF (eraseRewards (toSimIface cfg n)) k where
-  lawful := ex_lawful_erased cfg n
-  turn := by
-    intro hk'
-    obtain ⟨a, ha, hla⟩ := hl hk'
-    intro he
-    have : a ∈ (eraseRewards (toSimIface cfg n)).learners := (mem_learners _ a).mpr ⟨ha, hla⟩
-    rw [he] at this; cases this
-  dyn := fun h => absurd h hk
-
-/-- a `MultiMazeNavigationSim` with two agents standing on one cell (the target, agent 0, and a
-navigator, agent 1), after a reset -/
-def mmCfg : Cfg :=
-  { which := .multiMaze, learning := [false, true], comps := [], observers := some [.centered true],
-    dones := none, target := 0, navs := [1] }
-def mmState : St :=
-  { w := { rows := 1, cols := 1, overlap := [], cells := [[0, 1]], cfg := [{}, {}], st := [{}, {}] },
-    rewards := some [(1, 0)] }
-
-end Ex
-
-/-- **`MultiMazeNavigationSim` is not an accumulator simulation** (finding C01-E1): while a navigator
-stands on the target `get_reward` returns 1 every time it is asked, nothing is emptied — reading the
-reward does not bring what is pending to 0, as `Lawful.rew_pending` (the read-and-reset contract the
-C01 ledger clause is about) demands. -/
-theorem multiMaze_not_lawful : ¬ Lawful (Ex.toSimIface Ex.mmCfg 2) := by
-  intro h
-  have := h.rew_pending Ex.mmState 1 1
-  revert this
-  decide
-
-/-- C01 for `MultiMazeNavigationSim` with the reward values erased: every clause of `specC01` but the
-ledger clause (which then holds trivially) — for every configuration, manager and history. -/
-theorem C01_MultiMaze_partial (cfg : Ex.Cfg) (n : Nat) (k : MKind) (hk : k ≠ .dynamic)
-    (hl : k = .turnBased → ∃ a < n, cfg.isLearning a = true) (m0 : MState Ex.St) (ops : List (Op Ex.Act)) :
-    specC01 k n cfg.isLearning m0.shuffle (runOps (Ex.eraseRewards (Ex.toSimIface cfg n)) k m0 ops) = true :=
-  C01_managers_honour_done_protocol (Ex.eraseRewards (Ex.toSimIface cfg n)) k (Ex.ex_WF_erased cfg n k hk hl) m0 ops
-
-/-- C07 for `MultiMazeNavigationSim` (through the interface with erased reward values; `specC07` does
-not mention rewards) -/
-theorem C07_MultiMaze_partial (cfg : Ex.Cfg) (n : Nat) (k : MKind) (hk : k ≠ .dynamic)
-    (hl : k = .turnBased → ∃ a < n, cfg.isLearning a = true) (m0 : MState Ex.St) (ops : List (Op Ex.Act)) :
-    specC07 k n cfg.isLearning (runOps (Ex.eraseRewards (Ex.toSimIface cfg n)) k m0 ops) = true :=
-  C07_fair_turns_and_progress (Ex.eraseRewards (Ex.toSimIface cfg n)) k (Ex.ex_WF_erased cfg n k hk hl) m0 ops
 
 /-! ## C03: a step is a history; every reachable world satisfies the invariant -/
 
@@ -286,9 +196,10 @@ theorem examples_simIface_reachable (cfg : Ex.Cfg) (w0 : World) (n : Nat) (hcfg 
 /-- **a `step` with in-space actions does not raise** (C02: "every action drawn from an agent's declared
 action space is accepted and processed without error"): in every state reached by a history as in
 `examples_reachable_WInv` (after a successful reset), for every action dict satisfying `Ex.StepOK` —
-each item a point of the declared action space of a learning agent of the simulation, plus the
-class's own preconditions (see `Ex.StepOK`; the two ways in which the unchanged `TeamBattleSim` /
-`PredatorPreyResourcesSim` raise for in-space actions, findings C02-E2 / C02-E3, are excluded there) —
+each item a point of the declared action space of a learning agent of the simulation; for
+`MazeNavigationSim` the dict has an item for the navigator, for `TrafficCorridorSimulation` the done
+components answer for the acting agents; nothing else (any number of simultaneous attacks, victims
+with or without reward entry: the situations of the repaired findings C02-E2 / C02-E3 are inside) —
 and every tape, `step` returns.  So the totalisation of `Ex.toSimIface` is never used there. -/
 theorem examples_step_noRaise (cfg : Ex.Cfg) (w0 : World) (hcfg : CfgOK w0) (hfresh : w0.vitalsAlive = true)
     (t0 : Tape) (ops : List Ex.EOp) (hops : ∀ op ∈ ops, Ex.OpOK cfg w0 op)
@@ -323,16 +234,8 @@ theorem examples_get_reward_total (cfg : Ex.Cfg) (w0 : World) (hcfg : CfgOK w0) 
     have hn : s.w.n = w0.n := sframe_n hI.xinv.frame
     obtain ⟨x, hx⟩ : ∃ x, r.lookup a = some x := Option.isSome_iff_exists.mp hfull
     unfold Ex.getReward
-    simp only [hr]
-    by_cases hc : cfg.which = .multiMaze
-    · have hd : Ex.multiDone cfg s.w a = .ok (decide (s.w.posOf a = s.w.posOf cfg.target)) := by
-        simp only [Ex.multiDone, hn, ha, if_true]
-      unfold Ex.rewardVal
-      simp only [hc, hd, hx]
-      cases decide (s.w.posOf a = s.w.posOf cfg.target) <;> exact ⟨_, _, rfl⟩
-    · rw [Ex.rewardVal_smart hc]
-      simp only [hx]
-      exact ⟨_, _, rfl⟩
+    simp only [hr, Ex.rewardVal, hx]
+    exact ⟨_, _, rfl⟩
 
 /-! ## C02: observations -/
 
@@ -370,20 +273,20 @@ theorem examples_observations_in_space (cfg : Ex.Cfg) (w0 : World) (hcfg : CfgOK
 
 /-- **the form the judge evaluates**: for every configuration, constructed world, tape and history, if
 the hypotheses `exPre` hold — the world is as the constructors leave it, the history starts with a
-reset, every reset order is covered, every step's moves are in the declared spaces and the step is
-`stepSafe` — then the model's own trace satisfies `specEx`: every world after a reset / step
+reset, every reset order is covered, every step's moves are in the declared spaces — then the model's
+own trace satisfies `specEx`: every world after a reset / step
 satisfies `WInv` and has the constructed static part; every observation is a dict with exactly the
 keys of the observers that support the agent, each value inside the space that observer declared;
 `get_obs` / `get_done` / `get_all_done` change neither world nor reward dict and the done getters
 return the class's done rule on the current world; `reset` leaves exactly a zero entry per learning
-agent, `step` keeps the key list, `get_reward` leaves 0 in the entry it read — and (`ledger`, for
-every class but `MultiMazeNavigationSim`) returns what was in it; a `step` that `stepMustNotRaise`
-does not raise; the trace ends with the first call that raises. -/
-theorem examples_hist (cfg : Ex.Cfg) (w0 : World) (t0 : Tape) (ops : List Ex.EOp) (ledger : Bool)
-    (hled : ledger = true → cfg.which ≠ .multiMaze) (hpre : Ex.exPre cfg w0 ops = true) :
-    Ex.specEx cfg w0 ledger (Ex.zipOps ops (Ex.runOps cfg { w := w0, tape := t0 } ops).1) = true := by
+agent, `step` keeps the key list, `get_reward` returns what was in the entry it read and leaves 0
+there (read-and-reset, all five classes); a `step` that `stepMustNotRaise` does not raise; the trace
+ends with the first call that raises. -/
+theorem examples_hist (cfg : Ex.Cfg) (w0 : World) (t0 : Tape) (ops : List Ex.EOp)
+    (hpre : Ex.exPre cfg w0 ops = true) :
+    Ex.specEx cfg w0 (Ex.zipOps ops (Ex.runOps cfg { w := w0, tape := t0 } ops).1) = true := by
   obtain ⟨hW, hops⟩ := Ex.exPre_hyps hpre
-  exact Ex.specFrom_model hW hled ops { w := w0, tape := t0 } hops (Ex.goodP_init cfg w0 t0)
+  exact Ex.specFrom_model hW ops { w := w0, tape := t0 } hops (Ex.goodP_init cfg w0 t0)
 
 /-! ## C08: reset forgets -/
 
@@ -545,15 +448,45 @@ example :
   decide +kernel
 
 /-- … and it passes the judge, by the theorem -/
-example : Ex.specEx exTBCfg exTBWorld true
+example : Ex.specEx exTBCfg exTBWorld
     (Ex.zipOps exTBOps (Ex.runOps exTBCfg { w := exTBWorld } exTBOps).1) = true :=
-  examples_hist _ _ _ _ _ (fun _ => by decide) (by decide +kernel)
+  examples_hist _ _ _ _ (by decide +kernel)
 
 /-- the judge rejects a trace in which the dead agent's reward is delivered twice -/
 example :
     let tr := (Ex.runOps exTBCfg { w := exTBWorld } exTBOps).1
-    Ex.specEx exTBCfg exTBWorld true
+    Ex.specEx exTBCfg exTBWorld
       (Ex.zipOps exTBOps (tr.modify 4 fun e => { e with res := .int (-101) })) = false := by
   decide +kernel
+
+/-- a `MultiMazeNavigationSim`: the target (agent 0, encoding 1) and a navigator (agent 1, encoding 3)
+on a 1×2 grid -/
+def exMMCfg : Ex.Cfg :=
+  { which := .multiMaze, learning := [false, true], comps := [.position .position {}],
+    observers := some [.centered true], dones := none, target := 0, navs := [1] }
+
+def exMMWorld : World :=
+  { rows := 1, cols := 2, overlap := [(1, [3]), (3, [1, 3])], cells := [[], []],
+    cfg := [{ enc := 1, initPos := some (0, 1) },
+            { enc := 3, initPos := some (0, 0), moving := true, moveRange := 1, observing := true, viewRange := 1 }],
+    st := [{}, {}] }
+
+/-- reset; the navigator bumps into the border (−0.1 −0.01), then steps onto the target (+1 −0.01);
+the reward is read twice -/
+def exMMOps : List Ex.EOp :=
+  [.reset [.position .position {}] [],
+   .step [(1, { move := (0, -1) })] [], .rew 1,
+   .step [(1, { move := (0, 1) })] [], .done 1, .allDone, .rew 1, .rew 1]
+
+/-- the reward for reaching the target is delivered exactly once (what finding C01-E1 was about): 0.99
+at the first read after the arrival, 0 at the second, although the navigator still stands there -/
+example :
+    ((Ex.runOps exMMCfg { w := exMMWorld } exMMOps).1.map (·.res)) =
+      [.unit, .unit, .int (-11), .unit, .bool true, .bool true, .int 99, .int 0] := by
+  decide +kernel
+
+example : Ex.specEx exMMCfg exMMWorld
+    (Ex.zipOps exMMOps (Ex.runOps exMMCfg { w := exMMWorld } exMMOps).1) = true :=
+  examples_hist _ _ _ _ (by decide +kernel)
 
 end Abmarl
